@@ -730,7 +730,26 @@ class Interface:
         if qual.endswith(':HexDisplayedInteger.new'):
             # display subclass of int: modelled as its base value
             return [(st, args[0])]
-        return None
+        # a small helper of the repository without a contract of its own (e.g. a method a refactoring split off): its real body is
+        # executed in place (loop-free, not recursive, nesting depth <= 2) - executing the code is always sound
+        import ast as _ast
+        if not self.src.has(qual):
+            return None
+        fn = self.src.find(qual)
+        depth = getattr(eng, 'inline_depth', 0)
+        if depth >= 2 or any(isinstance(n, (_ast.For, _ast.While, _ast.Yield, _ast.YieldFrom)) for n in _ast.walk(fn)) or \
+                any(isinstance(n, _ast.Attribute) and n.attr == fn.name for n in _ast.walk(fn)):
+            return None
+        names = [a.arg for a in fn.args.args]
+        call_args = ([selfv] if names and names[0] == 'self' and selfv is not None else []) + list(args)
+        for ln in self.src.local_names(fn):
+            pass
+        fv = VFunc(qual, node=fn, closure={ln: UNBOUND for ln in self.src.local_names(fn)})
+        eng.inline_depth = depth + 1
+        try:
+            return eng.call_closure(fv, call_args, kws, st)
+        finally:
+            eng.inline_depth = depth
 
     def abstract_self_call(self, eng, qual, selfv, args, kws, st, node):
         return None
